@@ -335,7 +335,16 @@ def _spawn(binary, args, stdin_path, stdout_path, timeout, env, stall):
     ferr = tempfile.TemporaryFile("w+")
     kind = "ok"
     try:
-        p = subprocess.Popen(cmd, stdin=fin, stdout=fout, stderr=ferr, env=e, text=True)
+        # a runaway implementation (unbounded allocation in a loop) must not take the machine down with it:
+        # the driver's address space is capped, the allocation failure aborts the driver (SIGABRT) and is
+        # reported like any other death of the driver process
+        cap = int(os.environ.get("VERIF_DRIVER_AS_GB", "24")) << 30
+
+        def _limit():
+            import resource
+            resource.setrlimit(resource.RLIMIT_AS, (cap, cap))
+
+        p = subprocess.Popen(cmd, stdin=fin, stdout=fout, stderr=ferr, env=e, text=True, preexec_fn=_limit)
         t0 = _t.time()
         last_size, last_change = -1, t0
         while True:
